@@ -1,0 +1,201 @@
+//! Verification hooks: the header-ex client/server handlers over caller-provided transports, the
+//! wire codec, and the client's response validation. Adds no behaviour.
+
+use std::io;
+use std::sync::Arc;
+use std::task::{Context, Poll};
+
+use celestia_proto::p2p::pb::{HeaderRequest, HeaderResponse};
+use celestia_types::ExtendedHeader;
+use futures::{AsyncRead, AsyncWrite};
+use libp2p::request_response::{Codec, OutboundFailure};
+use libp2p::{PeerId, StreamProtocol};
+use tokio::sync::oneshot;
+
+use super::client::{HeaderExClientHandler, RequestSender};
+use super::server::{HeaderExServerHandler, ResponseSender};
+use super::{Event, HeaderCodec, HeaderExError};
+use crate::p2p::P2pError;
+use crate::store::Store;
+
+/// Transport seam of the client handler.
+pub trait SimSender {
+    /// Sends `request` to `peer`, returns the id under which the answer will be reported.
+    fn send_request(&mut self, peer: &PeerId, request: HeaderRequest) -> u64;
+}
+
+/// Adapter that carries the `RequestSender` impl.
+pub struct SenderAdapter<T>(pub T);
+
+impl<T: SimSender> RequestSender for SenderAdapter<T> {
+    type RequestId = u64;
+
+    fn send_request(&mut self, peer: &PeerId, request: HeaderRequest) -> u64 {
+        self.0.send_request(peer, request)
+    }
+}
+
+/// Events the client handler emits towards `P2p`.
+#[derive(Debug, Clone, Copy, PartialEq, Eq)]
+#[allow(missing_docs)]
+pub enum HxEvent {
+    SchedulePendingRequests,
+    NeedTrustedPeers,
+    NeedArchivalPeers,
+}
+
+/// `HeaderExClientHandler` over a `SimSender`.
+pub struct HxClient<T: SimSender> {
+    inner: HeaderExClientHandler<SenderAdapter<T>>,
+}
+
+#[allow(missing_docs)]
+impl<T: SimSender> HxClient<T> {
+    pub fn new() -> Self {
+        HxClient {
+            inner: HeaderExClientHandler::new(),
+        }
+    }
+
+    pub fn on_send_request(
+        &mut self,
+        request: HeaderRequest,
+        respond_to: oneshot::Sender<Result<Vec<ExtendedHeader>, P2pError>>,
+    ) {
+        self.inner.on_send_request(request, respond_to);
+    }
+
+    pub fn schedule_pending_requests(
+        &mut self,
+        sender: &mut SenderAdapter<T>,
+        peers: &crate::verif::Peers,
+    ) {
+        self.inner
+            .schedule_pending_requests(sender, peers.tracker());
+    }
+
+    pub fn on_response_received(&mut self, peer: PeerId, id: u64, responses: Vec<HeaderResponse>) {
+        self.inner.on_response_received(peer, id, responses);
+    }
+
+    pub fn on_failure(&mut self, peer: PeerId, id: u64, error: OutboundFailure) {
+        self.inner.on_failure(peer, id, error);
+    }
+
+    pub fn on_stop(&mut self) {
+        self.inner.on_stop();
+    }
+
+    pub fn poll(&mut self, cx: &mut Context<'_>) -> Poll<HxEvent> {
+        self.inner.poll(cx).map(|ev| match ev {
+            Event::SchedulePendingRequests => HxEvent::SchedulePendingRequests,
+            Event::NeedTrustedPeers => HxEvent::NeedTrustedPeers,
+            Event::NeedArchivalPeers => HxEvent::NeedArchivalPeers,
+        })
+    }
+}
+
+impl<T: SimSender> Default for HxClient<T> {
+    fn default() -> Self {
+        Self::new()
+    }
+}
+
+/// The client's validation of a response list against its request.
+pub async fn decode_and_verify_responses(
+    request: &HeaderRequest,
+    responses: &[HeaderResponse],
+) -> Result<Vec<ExtendedHeader>, HeaderExError> {
+    super::client::verif_client::decode_and_verify_responses(request, responses).await
+}
+
+/// Transport seam of the server handler.
+pub trait SimResponder {
+    /// Where a response goes.
+    type Channel: Send + 'static;
+
+    /// Delivers `response` on `channel`.
+    fn send_response(&mut self, channel: Self::Channel, response: Vec<HeaderResponse>);
+}
+
+/// Adapter that carries the `ResponseSender` impl.
+pub struct ResponderAdapter<R>(pub R);
+
+impl<R: SimResponder> ResponseSender for ResponderAdapter<R> {
+    type Channel = R::Channel;
+
+    fn send_response(&mut self, channel: Self::Channel, response: Vec<HeaderResponse>) {
+        self.0.send_response(channel, response)
+    }
+}
+
+/// `HeaderExServerHandler` over a `SimResponder`.
+pub struct HxServer<S: Store + 'static, R: SimResponder> {
+    inner: HeaderExServerHandler<S, ResponderAdapter<R>>,
+}
+
+#[allow(missing_docs)]
+impl<S: Store + 'static, R: SimResponder> HxServer<S, R> {
+    pub fn new(store: Arc<S>) -> Self {
+        HxServer {
+            inner: HeaderExServerHandler::new(store),
+        }
+    }
+
+    pub fn on_request_received(
+        &mut self,
+        peer: PeerId,
+        request_id: u64,
+        request: HeaderRequest,
+        responder: &mut ResponderAdapter<R>,
+        channel: R::Channel,
+    ) {
+        self.inner
+            .on_request_received(peer, request_id, request, responder, channel);
+    }
+
+    pub fn on_stop(&mut self) {
+        self.inner.on_stop();
+    }
+
+    pub fn poll(&mut self, cx: &mut Context<'_>, responder: &mut ResponderAdapter<R>) -> Poll<()> {
+        self.inner.poll(cx, responder)
+    }
+}
+
+fn protocol() -> StreamProtocol {
+    StreamProtocol::new("/verif/header-ex")
+}
+
+/// `HeaderCodec::read_request`.
+pub async fn read_request<T>(io: &mut T) -> io::Result<HeaderRequest>
+where
+    T: AsyncRead + Unpin + Send,
+{
+    HeaderCodec.read_request(&protocol(), io).await
+}
+
+/// `HeaderCodec::read_response`.
+pub async fn read_response<T>(io: &mut T) -> io::Result<Vec<HeaderResponse>>
+where
+    T: AsyncRead + Unpin + Send,
+{
+    HeaderCodec.read_response(&protocol(), io).await
+}
+
+/// `HeaderCodec::write_request`.
+pub async fn write_request<T>(io: &mut T, req: HeaderRequest) -> io::Result<()>
+where
+    T: AsyncWrite + Unpin + Send,
+{
+    HeaderCodec.write_request(&protocol(), io, req).await
+}
+
+/// `HeaderCodec::write_response`.
+pub async fn write_response<T>(io: &mut T, resps: Vec<HeaderResponse>) -> io::Result<()>
+where
+    T: AsyncWrite + Unpin + Send,
+{
+    HeaderCodec.write_response(&protocol(), io, resps).await
+}
+
